@@ -14,6 +14,8 @@ import (
 	"go.brendoncarroll.net/p2p/f/x509"
 	"go.brendoncarroll.net/p2p/p/p2pke"
 	"go.uber.org/zap"
+
+	"verif/harness/internal/ev"
 )
 
 var debugWire = os.Getenv("VERIF_DEBUG") != ""
@@ -152,11 +154,11 @@ type chanNet struct {
 	links map[*node][]*node
 	hold  bool
 	// drop, when set, decides per message whether the wire loses it
-	drop  func(from *node, data []byte) bool
-	held  []wireMsg
-	seq   int64
-	wg    sync.WaitGroup
-	log   []string
+	drop   func(from *node, data []byte) bool
+	held   []wireMsg
+	seq    int64
+	wg     sync.WaitGroup
+	log    []string
 	closed bool
 }
 
@@ -357,9 +359,17 @@ func (n *node) send(tag string, timeout time.Duration) error {
 	n.mu.Lock()
 	n.sent[pt] = true
 	n.mu.Unlock()
-	ctx, cf := context.WithTimeout(context.Background(), timeout)
+	// The limit is patient (see ev.Patient): on a responsive machine Send has `timeout` to return, on a
+	// stalled one it gets longer, so that an expired limit says something about the channel.
+	ctx, cf := context.WithTimeout(context.Background(), ev.Extended(timeout)+time.Second)
 	defer cf()
-	err := n.ch.Send(ctx, p2p.IOVec{[]byte(pt)})
+	done := make(chan error, 1)
+	go func() { done <- n.ch.Send(ctx, p2p.IOVec{[]byte(pt)}) }()
+	err, returned := ev.PatientRecv(timeout, done)
+	if !returned {
+		cf()
+		err = context.DeadlineExceeded
+	}
 	if err == nil {
 		k := n.observeKey()
 		if k < 0 {
@@ -426,14 +436,5 @@ func (nt *chanNet) problems() []string {
 
 // waitUntil polls cond until it holds or the timeout elapses.
 func waitUntil(timeout time.Duration, cond func() bool) bool {
-	deadline := time.Now().Add(timeout)
-	for {
-		if cond() {
-			return true
-		}
-		if time.Now().After(deadline) {
-			return false
-		}
-		time.Sleep(time.Millisecond)
-	}
+	return ev.Patient(timeout, cond)
 }
